@@ -36,6 +36,9 @@ type c02Scn struct {
 	// SecondReduced: the full alphabet applies until one mutation has been made,
 	// then the reduced one (k=2 over full x reduced)
 	SecondReduced bool `json:"second_reduced,omitempty"`
+	// LongSecret: the caller's password (and KG) are 24 bytes; "wrong" then means
+	// the BMC holds only their first 20 bytes
+	LongSecret bool `json:"long_secret,omitempty"`
 	Username string    `json:"username"`
 }
 
@@ -217,11 +220,25 @@ func c02Exec(scn c02Scn, ch *env.Chooser) *c02Obs {
 		cfg.KG = pattern(20, 0x30, 1)
 	}
 	kg := cfg.KG
+	if scn.LongSecret {
+		pw = []byte("a-password-of-24-bytes!!")
+		cfg.Password = pw
+		if scn.UseKG {
+			cfg.KG = pattern(24, 0x30, 1)
+		}
+		kg = cfg.KG
+	}
 	if scn.WrongPw {
 		cfg.Password = []byte("s3cret-pasS")
+		if scn.LongSecret {
+			cfg.Password = pw[:20]
+		}
 	}
 	if scn.WrongKG {
 		cfg.KG = pattern(20, 0x31, 1)
+		if scn.LongSecret {
+			cfg.KG = kg[:20]
+		}
 	}
 	w := newWorld(cfg, ch, nil)
 	o := &c02Obs{}
@@ -375,6 +392,9 @@ func runC02(r *rep.R) {
 			{Suite: s, Username: "admin", WrongPw: true},
 			{Suite: s, Username: "admin", UseKG: true, WrongKG: true},
 			{Suite: s, Username: "0123456789abcdef", UseKG: true, WrongPw: true},
+			{Suite: s, Username: "admin", UseKG: true, LongSecret: true},
+			{Suite: s, Username: "admin", LongSecret: true, WrongPw: true},
+			{Suite: s, Username: "admin", UseKG: true, LongSecret: true, WrongKG: true},
 		} {
 			scn := variant
 			if scn.WrongPw || scn.WrongKG || scn.UseKG {
@@ -402,7 +422,7 @@ func runC02(r *rep.R) {
 }
 
 func c02Explore(r *rep.R, scn c02Scn, bound int, idx *int64) {
-	tag := fmt.Sprintf("c02/%v/pw%v/kg%v/%v/red%v/%v/u%d", scn.Suite, scn.WrongPw, scn.WrongKG, scn.UseKG, scn.Reduced, scn.SecondReduced, len(scn.Username))
+	tag := fmt.Sprintf("c02/%v/pw%v/kg%v/%v/red%v/%v/%v/u%d", scn.Suite, scn.WrongPw, scn.WrongKG, scn.UseKG, scn.Reduced, scn.SecondReduced, scn.LongSecret, len(scn.Username))
 	e := &env.Explorer{R: r, Bound: bound, Scenario: tag, Idx: idx,
 		Run: func(ch *env.Chooser) any { return c02Exec(scn, ch) },
 	}
